@@ -21,7 +21,9 @@ import (
 	"bytes"
 	"encoding/base64"
 	"encoding/json"
+	"math"
 	"reflect"
+	"strconv"
 	"time"
 )
 
@@ -291,19 +293,36 @@ func ColumnValueFromJSON(columnType JDBCType, value interface{}) (interface{}, e
 		if f, ok := asFloat(); ok {
 			return f, nil
 		}
+	// a value beyond the signed range of its width comes from an UNSIGNED column: it stays the number it is
 	case JDBCTypeTinyInt: // 1 Bytes
 		if i, ok := asInt(); ok {
+			if i < math.MinInt8 || i > math.MaxInt8 {
+				return i, nil
+			}
 			return int8(i), nil
 		}
 	case JDBCTypeSmallInt: // 2 Bytes
 		if i, ok := asInt(); ok {
+			if i < math.MinInt16 || i > math.MaxInt16 {
+				return i, nil
+			}
 			return int16(i), nil
 		}
 	case JDBCTypeInteger: // 4 Bytes
 		if i, ok := asInt(); ok {
+			if i < math.MinInt32 || i > math.MaxInt32 {
+				return i, nil
+			}
 			return int32(i), nil
 		}
 	case JDBCTypeBigInt: // 8Bytes
+		if n, isNumber := value.(json.Number); isNumber {
+			if _, err := n.Int64(); err != nil {
+				if u, uerr := strconv.ParseUint(n.String(), 10, 64); uerr == nil {
+					return u, nil
+				}
+			}
+		}
 		if i, ok := asInt(); ok {
 			return i, nil
 		}
